@@ -503,6 +503,16 @@ fn shape_sources() -> Vec<(String, String)> {
             out.push((format!("{}/receive", id), format!("{}\nr = @{{ !#({}) }}", a, e)));
         }
     }
+    // programs that import an in-memory module whose body waits, fails, or is fine
+    for (name, _) in oracle::USER_MODULES {
+        let id = format!("shape/usermod/{}", name);
+        out.push((format!("{}/bare", id), format!("%{}", name)));
+        out.push((format!("{}/bound", id), format!("x = %{},\nx", name)));
+        out.push((format!("{}/twice", id), format!("[%{}, %{}]", name, name)));
+        out.push((format!("{}/member", id), format!("%{}.f", name)));
+        out.push((format!("{}/in_fn", id), format!("g = #'int {{ %{} }},\n1 g", name)));
+        out.push((format!("{}/after_ok", id), format!("%um_ok,\n%{}", name)));
+    }
     out
 }
 
